@@ -154,6 +154,12 @@ func walk(d []byte, mode pdf.ReaderErrorHandling, st *walkStats) {
 				st.StreamErrs++
 			}
 			rd.Close()
+			// a consumer that stops early: the producers behind the reader
+			// must be released by Close
+			if rd2, err := pdf.DecodeStream(r, nil, o); err == nil {
+				io.CopyN(io.Discard, rd2, 7)
+				rd2.Close()
+			}
 		case pdf.Dict:
 			if tp, _ := o["Type"].(pdf.Name); tp == "Font" {
 				f, err := pdf.Decode(c0, ref, extract.Font)
